@@ -103,6 +103,10 @@ impl BDDSet {
 
     pub fn contains<T: BDDCategorizable>(&self, e: T) -> bool {
         let singleton = Self::from_element(e, self.bits, &self.env);
-        self.intersect(&singleton) == &singleton
+        let element = singleton.bdd.borrow().clone();
+        let common = self
+            .env
+            .and(self.bdd.borrow().clone(), Rc::clone(&element));
+        common == element
     }
 }
